@@ -14,7 +14,10 @@ def run(ctx, info):
     now = [n for n, s in sks.items() if not s["fields"]["reads_fitness"] and not s["fields"]["reads_direction"]]
     ctx.coverage["fitness_blind_set"] = {"pinned": len(pinned), "computed_now": len(now), "dropped": sorted(set(pinned) - set(now)), "new": sorted(set(now) - set(pinned))}
     ctx.ties = {"algos": st.get("algos")}
-    pairs = L.c12_jobs(ctx, pinned)
+    # optimizers whose provenance facts changed (objective reached outside _init_agent, raw sites ...) or that left the blind set are searched on every task family
+    focus = sorted((set(pinned) - set(now)) | {n for n, s_ in sks.items() if n in pinned and (s_["objective_calls"] or s_["raw_sites"] or not s_["init_agent_ok"])})
+    ctx.coverage["focus"] = focus
+    pairs = L.c12_jobs(ctx, pinned, focus=focus)
     obs = L.run_pairs(pairs)
     n = L.c12_decide(ctx, pairs, obs)
     ctx.add_cover(2 * n, n, "every pinned fitness-blind optimizer: run(max, f) vs run(min, -f) with equal seeds over five objectives and three bound families; "
